@@ -36,6 +36,6 @@ func TestCheck(t *testing.T) {
 			"empty put values are not generated (O-2 in DESIGN)",
 		},
 	}
-	pbt.Add(s, &pbt.Spec[perco.GCase]{Name: "reads", Gen: gen, Run: run, Quick: 1200, Thorough: 36000, Shards: 16})
+	pbt.Add(s, &pbt.Spec[perco.GCase]{Name: "reads", Gen: gen, Run: run, Quick: 2000, Thorough: 36000, Shards: 16})
 	s.Main(t)
 }
